@@ -107,13 +107,14 @@ CHECKS["C08"] = dict(
     jobs=[dict(pkg="pkg/rfc8888", entry="HC08Offset", params=dict(elbase=b), require_covers=["offset"]) for b in (0, 999000000, 7999000000, 8000500000, 64500000000, 3600000000000)] + [
         dict(pkg="pkg/rfc8888", entry="HC08Offset", params=dict(after=1)),
         dict(pkg="pkg/rfc8888", entry="HC08History", params=dict(packets=2, span=2), require_covers=["received entry", "lost entry"], thorough=dict(params=dict(packets=3, span=2), timeout=3400)),
+        dict(pkg="pkg/rfc8888", entry="HC08Interceptor", require_covers=["report written"], no_native=True),
         dict(pkg="pkg/rfc8888", entry="HC08Budget", params=dict(streams=2, per=3)),
         dict(pkg="pkg/rfc8888", entry="HC08Budget", params=dict(streams=3, per=2)),
         dict(pkg="pkg/rfc8888", entry="HC08Budget", params=dict(streams=1, per=4)),
     ],
-    bounds=dict(quick="offset kernel: (report - arrival) = base + [0,2^20) ns for 6 bases (0, ~1 s, just below/above the 8 s saturation, 64.5 s, 1 h) + arrival after report; histories: one SSRC, 2 packets with offsets 0..2 from 3 bases (plain, 2^16 wrap, 2^15), symbolic arrival times/ECN, report after a symbolic prefix and at the end; budget: 1-3 streams x 2-4 packets (gapped), every maxSize from the header minimum up",
+    bounds=dict(quick="offset kernel: (report - arrival) = base + [0,2^20) ns for 6 bases (0, ~1 s, just below/above the 8 s saturation, 64.5 s, 1 h) + arrival after report; histories: one SSRC, 2 packets with offsets 0..2 from 3 bases (plain, 2^16 wrap, 2^15), symbolic arrival times/ECN, report after a symbolic prefix and at the end; budget: 1-3 streams x 2-4 packets (gapped), every maxSize from the header minimum up; sender interceptor: two remote streams, reads with a case-split offset, a duplicate and a failing read under a concrete harness clock, one tick: one report with one block per stream, ranges/received flags/offsets as read",
                 thorough="3 packets per history"),
-    outside=["more than 3 packets per history", "several SSRCs in the history harness", "a stream whose first sequence number is below the reordering distance (unwrapper floor-at-zero corner)", "report-arrival outside the listed windows"],
+    outside=["more than 3 packets per history", "several SSRCs in the symbolic history harness (two streams only in the interceptor-level run with a concrete clock)", "a stream whose first sequence number is below the reordering distance (unwrapper floor-at-zero corner)", "report-arrival outside the listed windows"],
     assumptions=["map iteration order fixed (insertion order)", "float->uint16 conversion as go1.24/amd64"],
 )
 
